@@ -567,20 +567,31 @@ func (t *Terminal) handleKey(key rune) (line []string, ok bool) {
 		t.setLine(t.line, t.pos)
 	case keyEnter:
 		strline := strings.TrimSpace(string(t.line))
+		// split string until queries terminated by ; (a ; inside a quoted
+		// literal or identifier is part of the query)
+		var queries []string
+		var quote rune
+		begin := 0
+		for cur := 0; cur < len(t.line); cur++ {
+			switch c := t.line[cur]; {
+			case quote != 0:
+				if c == quote {
+					quote = 0
+				}
+			case c == '\'' || c == '"':
+				quote = c
+			case c == 59:
+				queries = append(queries, strings.TrimSpace(string(t.line[begin:cur+1])))
+				begin = cur + 1
+			}
+		}
 		// if the last thing entered was a query terminator
-		if len(strline) == 0 || strline[len(strline)-1:] == ";" {
+		if len(strline) == 0 || (quote == 0 && strline[len(strline)-1:] == ";") {
 			// not sure what this is for
 			t.moveCursorToPos(len(t.line))
 			t.queue([]rune("\r\n"))
 
-			// split string until queries terminated by ;
-			begin := 0
-			for cur := 0; cur < len(t.line); cur++ {
-				if t.line[cur] == 59 {
-					line = append(line, strings.TrimSpace(string(t.line[begin:cur+1])))
-					begin = cur + 1
-				}
-			}
+			line = queries
 
 			ok = true
 			t.line = t.line[:0]
